@@ -482,7 +482,11 @@ var verifResultTypes = []byte{'N', 'T', 'B'}
 func VerifC17_Grouping() {
 	g := &verifGen{symbolic: true}
 	t := verifResultTypes[zzverif.Choice("result-type", 3)]
-	verifCheckMigration(g.tree(t, 2, 0))
+	depth := 2
+	if zzverif.Thorough() {
+		depth = 3 // (three levels with the symbolic operand innermost)
+	}
+	verifCheckMigration(g.tree(t, depth, 0))
 }
 
 // VerifC17_Nesting: three levels, with completed calls as sibling operands of
@@ -493,5 +497,10 @@ func VerifC17_Grouping() {
 func VerifC17_Nesting() {
 	g := &verifGen{callsInnermost: !zzverif.Thorough(), pairedSiblings: true}
 	t := verifResultTypes[zzverif.Choice("result-type", 3)]
+	if zzverif.Thorough() {
+		g.pairedSiblings = false
+		verifCheckMigration(g.tree(t, 3, 2)) // (every sibling at both levels a literal or a call, independently)
+		return
+	}
 	verifCheckMigration(g.tree(t, 3, 1))
 }
